@@ -309,7 +309,10 @@ def placeholder_values(d, st, s, fake, sol, tags, pre_int):
         T = float(num(st.value(st.T))[0]); t0 = float(num(st.value(st.t0))[0])
         parts = {"a": st.at_t0(x0), "b": st.at_tf(x0), "b1": st.at_tf(x1), "c": pre_int, "ut": st.at_tf(u0), "t0": st.at_t0(st.t), "tf": st.at_tf(st.t)}
         val = {k: float(num(st.value(v))[0]) for k, v in parts.items()}
-        want = {"a": xs[0, 0], "b": xs[0, -1], "b1": xs[1, -1], "ut": us[-1], "t0": t0, "tf": t0 + T}
+        tcs = num(st.sample(st.t, grid="control")[1])
+        # (time at the boundaries = the first / last node of the control grid; on localized grids the nodes are decision
+        # variables and equal t0, t0+T only where the grid's own constraints hold)
+        want = {"a": xs[0, 0], "b": xs[0, -1], "b1": xs[1, -1], "ut": us[-1], "t0": tcs[0], "tf": tcs[-1]}
         for k, w_ in want.items():
             if not NL.close(val[k], w_, 1e-10):
                 vios.append(dict(sig="value:placeholder:%s" % k, tags=tags, detail="value of the boundary evaluation '%s' is %g, the sampled trajectory gives %g" % (k, val[k], w_)))
